@@ -70,6 +70,8 @@ def time_execution(
 
 # Global semaphore registry for retry decorator
 GLOBAL_RETRY_SEMAPHORES: dict[str, asyncio.Semaphore] = {}
+# event loop each registered semaphore was created for (an asyncio.Semaphore cannot be shared between loops)
+GLOBAL_RETRY_SEMAPHORE_LOOPS: dict[str, asyncio.AbstractEventLoop | None] = {}
 GLOBAL_RETRY_SEMAPHORE_LOCK = threading.Lock()
 
 # Multiprocess semaphore support
@@ -192,8 +194,15 @@ def _get_or_create_semaphore(
                     return GLOBAL_RETRY_SEMAPHORES[fallback_key]
     else:
         with GLOBAL_RETRY_SEMAPHORE_LOCK:
-            if sem_key not in GLOBAL_RETRY_SEMAPHORES:
+            try:
+                current_loop: asyncio.AbstractEventLoop | None = asyncio.get_running_loop()
+            except RuntimeError:
+                current_loop = None
+            # a semaphore that was contended in an earlier event loop is bound to that loop and raises
+            # RuntimeError when waited on from another one: start over with a fresh semaphore per loop
+            if sem_key not in GLOBAL_RETRY_SEMAPHORES or GLOBAL_RETRY_SEMAPHORE_LOOPS.get(sem_key) is not current_loop:
                 GLOBAL_RETRY_SEMAPHORES[sem_key] = asyncio.Semaphore(semaphore_limit)
+                GLOBAL_RETRY_SEMAPHORE_LOOPS[sem_key] = current_loop
             return GLOBAL_RETRY_SEMAPHORES[sem_key]
 
 
